@@ -38,8 +38,8 @@ def build_corpus(out, tier, seed, wd, dump, kinds=("tokseq", "lexer", "programs"
                 for p in vlib.read_ndjson(pp):
                     emit({"input": p["input"], "tag": "chars"})
         if "programs" in kinds:
-            for cfg in (["MC_Programs_q3", "MC_Programs_chains7", "MC_Programs_sc5", "MC_Programs_conds5", "MC_Programs_calls6", "MC_Programs_host4"] if tier == "quick"
-                        else ["MC_Programs_t4", "MC_Programs_conds6", "MC_Programs_lists5", "MC_Programs_calls8", "MC_Programs_sc7", "MC_Programs_host5", "MC_Programs_arith5"]):
+            for cfg in (["MC_Programs_q3", "MC_Programs_chains7", "MC_Programs_sc5", "MC_Programs_conds5", "MC_Programs_calls6", "MC_Programs_host4", "MC_Programs_ticks4", "MC_Programs_seqs4", "MC_Programs_partial5"] if tier == "quick"
+                        else ["MC_Programs_t4", "MC_Programs_conds6", "MC_Programs_lists5", "MC_Programs_calls8", "MC_Programs_sc7", "MC_Programs_host5", "MC_Programs_arith5", "MC_Programs_ticks5", "MC_Programs_seqs5", "MC_Programs_partial6", "MC_Programs_casts6", "MC_Programs_paths5"]):
                 pp = os.path.join(wd, cfg + ".ndjson")
                 cnt = progs.generate_programs(out, cfg, pp, timeout=3000)
                 parts.append("%s=%d" % (cfg, cnt))
